@@ -20,6 +20,7 @@ BUDGET = {'quick': 400, 'thorough': 3600}
 G1, G2 = 0.7310585786300049, 1.618033988749895
 TINY = 2.0 ** -27     # a very weak but non-zero coupling
 PVALS = [0.0, 1.0, -1.0, G1, -G2, TINY]
+PTYPES = ['int', 'np_int64', 'np_float32', 'array0d']
 
 SX = np.array([[0., 1.], [1., 0.]])
 SZ = np.array([[1., 0.], [0., -1.]])
@@ -125,6 +126,10 @@ def _model_cases(maxdim):
         for L in _lengths(d, maxdim if name != 'fermi_hubbard' else min(maxdim, 1024)):
             for p in itertools.product(PVALS, repeat=3):
                 yield ['model', name, L, list(p)]
+            # the same integral parameter triples passed as Python ints, NumPy integers and 0-d arrays (what a user types: J=1, h=0)
+            for p in itertools.product([0, 1, -1, 2], repeat=3):
+                for ptype in PTYPES:
+                    yield ['model', name, L, list(p), ptype]
 
 
 def judge_common(ctx, mpo, Href, d, L, qd_expected, real_params):
@@ -150,15 +155,18 @@ def judge_common(ctx, mpo, Href, d, L, qd_expected, real_params):
 
 
 def run_model_case(case, ctx):
-    _, name, L, p = case
+    _, name, L, p = case[:4]
+    ptype = case[4] if len(case) > 4 else 'float'
     d, qd_exp, build, ref, two = MODELS[name]
     # formal-zero filter: no term of the documented formula that exists for this L has a non-zero coefficient
     live = [x for k, x in enumerate(p) if (k not in two) or L >= 2]
     if not any(x != 0 for x in live):
         raise OutOfDomain()
-    mpo = build(L, p)
+    conv = {'float': float, 'int': int, 'np_int64': np.int64, 'np_float32': np.float32, 'array0d': lambda x: np.array(float(x))}[ptype]
+    mpo = build(L, [conv(x) for x in p])
     ctx.calls += 1
     ctx.cls('model:' + name)
+    ctx.cls('parameter_type:' + ptype)
     ctx.cls(f'L={L}' if L <= 2 else 'L>=3')
     ctx.nontrivial = L >= 2 and sum(1 for x in p if x != 0) >= 2
     judge_common(ctx, mpo, ref(L, p), d, L, qd_exp, True)
@@ -214,7 +222,7 @@ def spaces(tier, seed):
     maxdim = 512 if tier == 'quick' else 1024
     return [
         Space('models', core.chunked(_model_cases(maxdim), 25), run_case=run_model_case, sig=sig,
-              bounds={'models': list(MODELS), 'dense_dim<=': maxdim, 'parameter_values': PVALS, 'L>=': 1}),
+              bounds={'models': list(MODELS), 'dense_dim<=': maxdim, 'parameter_values': PVALS, 'parameter_types': "float; " + ", ".join(PTYPES) + " on the integral triples over 0, 1, -1, 2", 'L>=': 1}),
         Space('linear_fermionic', core.chunked(_linear_cases(8 if tier == 'quick' else 10), 10), run_case=run_linear_case, sig=sig,
               bounds={'L': '1..8 (quick) / 1..10', 'ftypes': FTYPES, 'coefficient_kinds': COEFF_KINDS + ['every one-hot']}),
     ]
